@@ -86,8 +86,10 @@ alignment achieving it" the smallest `l` for that `s`; the number of differences
 
 The theorems are stated on the structural layer `bandLCS` (the banded matrix of `FastLCSEGFScoreByte`,
 endgapfree = false, by rows, with the packed `uint64` cells, the band limits, `_out`/`_notavail` and `_setout`
-of the code); the verbatim two-row/anti-diagonal transcription `fastLCSEGFScoreByte` is executed side by side with
-it on every correspondence case (`layer-mismatch` otherwise). -/
+of the code); the verbatim two-row/anti-diagonal transcription `fastLCSEGFScoreByte` is PROVED equal to it for all
+inputs and every scratch buffer (`fastLCS_verbatim_refines`, section "Refinement" below, where the theorems are
+restated on the verbatim functions); both layers are still executed side by side on every correspondence case
+(`layer-mismatch` otherwise). -/
 
 /-- **`lcsDP_is_lcs`** — the textbook full-matrix recurrence `lcsDP` returns (LCS length, length of the shortest
 alignment achieving it): its value is realised by an alignment and no alignment has a higher score, or the same
@@ -228,8 +230,9 @@ example : bandLCS [97, 99, 103, 116] [97, 103, 116] 0 = none ∧ bandLCS [97, 99
 /-! ## The one-difference test `D1Or0`
 
 Stated on the structural layer `d1F` (prefix / suffix stripping); the verbatim index-loop transcription `d1or0`
-is executed side by side with `d1F` on every correspondence case (`vm_C09` answers `layer-mismatch` if they ever
-differ). `lev` is the textbook Levenshtein recurrence (byte equality, as in the code: no IUPAC here). -/
+is PROVED equal to `d1F` for all inputs (`d1or0_verbatim_refines` below; restated as `d1or0_verbatim_spec`,
+`d1or0_verbatim_symm`) and still executed side by side with it on every correspondence case (`vm_C09` answers
+`layer-mismatch` if they ever differ). `lev` is the textbook Levenshtein recurrence (byte equality, as in the code: no IUPAC here). -/
 
 /-- **`d1or0_spec`** — for ALL pairs of sequences:
 * the verdict is 0 exactly for identical sequences (edit distance 0), and then the outputs are `(-1, 0, 0)`;
